@@ -57,6 +57,14 @@ def modifierTable : List Char := ['H', 'M', 'S', 'I', 'k', 'l', 's']
 /-- (modifier, distance from the end, fill, width) as written in the two switch statements -/
 def patchTable : List (Char × Nat × Char × Nat) :=
   [('H', 2, '0', 2), ('M', 2, '0', 2), ('S', 2, '0', 2), ('I', 2, '0', 2), ('k', 2, ' ', 2), ('l', 2, ' ', 2), ('s', 10, ' ', 10)]
+/-- (modifier, argument of the patching `format_to` as written in the switch, blanks removed) — `patchText` below -/
+def patchArgs : List (Char × String) :=
+  [('H', "hours"), ('M', "minutes"), ('S', "seconds"), ('I', "(hours==0?12:(hours>12?hours-12:hours))"), ('k', "hours"),
+   ('l', "(hours==0?12:(hours>12?hours-12:hours))"), ('s', "_cached_timestamp")]
+/-- `total_seconds / 3600`, `- hours * 3600`, `/ 60`, `- minutes * 60` -/
+def hmsDivisors : List Nat := [3600, 3600, 60, 60]
+/-- (specifier, zeros appended, divisor of the nanoseconds): `Frac.width`, `Frac.value` -/
+def fracTable : List (String × Nat × Nat) := [("%Qms", 3, 1000000), ("%Qus", 6, 1000), ("%Qns", 9, 1)]
 /-- the rewrites applied by `init`, in order -/
 def rewriteTable : List (Char × String) := [('r', "%I:%M:%S %p"), ('R', "%H:%M"), ('T', "%H:%M:%S")]
 /-- the substring `init` rejects -/
